@@ -1,8 +1,9 @@
 (* Extraction of the C10 model; run by the check driver from the build directory. *)
 Require Extraction.
 Require Import ExtrOcamlBasic.
-From Verif Require Import Lib.Base Lib.Dyadic Lib.Utf8 Model.Builtins.
+From Verif Require Import Lib.Base Lib.Dyadic Lib.Utf8 Lib.Regex Model.Builtins Model.BuiltinsRegex.
 Extraction "model.ml"
   of_bits canon
   substr_bytes substr_len_bytes substr_chars substr_len_chars
-  builtin_int builtin_index builtin_length expand_repl.
+  builtin_int builtin_index builtin_length expand_repl
+  match_re sub_re split_re builtin_toupper builtin_tolower all_matches.
